@@ -387,6 +387,7 @@ struct GetVals
 // ------------------------------------------------------------------------------------------------
 // iterators handed to the container
 // ------------------------------------------------------------------------------------------------
+static const E *g_fw_last = 0;   // end of the forward range handed to the current call (0: none)
 struct FwdIt    // a plain forward iterator over external elements (not contiguous, not random access)
 {
   typedef std::forward_iterator_tag iterator_category;
@@ -394,10 +395,11 @@ struct FwdIt    // a plain forward iterator over external elements (not contiguo
   const E *p;
   FwdIt () : p (0) { }
   explicit FwdIt (const E *q) : p (q) { }
-  reference operator* () const { tick_iter (); return *p; }
+  // C15 "forward ranges are never walked past last": the range of the current call is [*, g_fw_last)
+  reference operator* () const { tick_iter (); if (g_fw_last && p >= g_fw_last) wmsg ("C15", "forward iterator dereferenced at or beyond last"); return *p; }
   pointer operator-> () const { return p; }
-  FwdIt& operator++ () { tick_iter (); ++p; return *this; }
-  FwdIt operator++ (int) { FwdIt t (*this); tick_iter (); ++p; return t; }
+  FwdIt& operator++ () { tick_iter (); if (g_fw_last && p >= g_fw_last) wmsg ("C15", "forward iterator incremented at or beyond last"); ++p; return *this; }
+  FwdIt operator++ (int) { FwdIt t (*this); ++*this; return t; }
   friend bool operator== (const FwdIt& a, const FwdIt& b) { return a.p == b.p; }
   friend bool operator!= (const FwdIt& a, const FwdIt& b) { return a.p != b.p; }
 };
@@ -1027,6 +1029,7 @@ static void run_line (const std::string& line_in)
   ext.reserve (needs_range ? c.vals.size () + 1 : 2);
   if (needs_one) ext.push_back (mkE (c.v));
   if (needs_range) for (std::size_t i = 0; i < c.vals.size (); ++i) ext.push_back (mkE (c.vals[i]));
+  g_fw_last = needs_range ? ext.data () + ext.size () : 0;
   Stream st; st.base = ext.data (); st.n = static_cast<long> (ext.size ()); st.cursor = 0; st.sid = 0; st.last_deref = -1; st.generation = 0;
   bool uses_stream = needs_range && o != "newg" && c.it == "in";
   if (uses_stream) st.sid = g_next_stream++;
